@@ -48,19 +48,19 @@ type psWorld struct {
 }
 
 type psConn struct {
-	c             *ref.Conn
-	dead          bool
-	salt, B       []byte
-	srp           *ref.SRPClient // pending or accepted exchange
-	holds         bool           // the peer derived the key of an accepted proof on this connection
-	srpK          []byte
-	encKey        [32]byte
-	recA, recM1   []byte // A and proof of the last ACCEPTED verify on this connection, as sent
-	recM5         []byte // encrypted-data item of the last key exchange sent on this connection
+	c           *ref.Conn
+	dead        bool
+	salt, B     []byte
+	srp         *ref.SRPClient // pending or accepted exchange
+	holds       bool           // the peer derived the key of an accepted proof on this connection
+	srpK        []byte
+	encKey      [32]byte
+	recA, recM1 []byte // A and proof of the last ACCEPTED verify on this connection, as sent
+	recM5       []byte // encrypted-data item of the last key exchange sent on this connection
 	// a complete ACCEPTED exchange on this connection as an eavesdropper recorded it: A, proof, key-exchange box
 	tapA, tapM1, tapM5 []byte
 	lastBox            []byte
-	sentA, sentM1 []byte
+	sentA, sentM1      []byte
 }
 
 func newPSWorld(seed int64, k int, pin string) (*psWorld, error) {
